@@ -219,7 +219,10 @@ impl Check for C03Check {
     fn run_case(&self, idx: u64, seed: u64, _tier: Tier) -> CaseResult {
         let mut res = CaseResult::default();
         let mut r = Rng::new(seed);
-        let (code, family) = gen_program(&mut r);
+        let (mut code, family) = gen_program(&mut r);
+        if r.chance(1, 10) {
+            workload::end_on_last_jumpdest(&mut code);
+        }
         let knobs = gen_knobs(&mut r, &code);
         res.probe(&format!("workload_{family}"));
         let scheds = [Sched::natural(0), Sched::natural(r.next()), Sched::adversarial(r.next(), 700, MENU_ALL)];
